@@ -35,6 +35,7 @@ def cases(draw, tier):
     nr = draw(st.integers(1, 3))
     nv = draw(st.integers(1, 3))
     rs = sorted(draw(st.lists(st.floats(0.1, 14.5), min_size=nr, max_size=nr, unique=True)))
+    near = (not exact) and draw(st.integers(0, 3)) == 0
     if exact:
         k = draw(st.integers(2, 6))
         dz = 2.0 ** (-k)
@@ -48,12 +49,19 @@ def cases(draw, tier):
         vs = sorted(set(draw(st.lists(st.floats(-8, 8), min_size=nv, max_size=nv))))
         dt = draw(st.sampled_from([0.0625, 0.5, 2.0, 8.0, 32.0])) * draw(st.sampled_from([-1.0, 1.0]))
         iota = draw(st.one_of(st.sampled_from([0.0, 0.8, -0.8]), st.floats(-2, 2)))
+        if near:
+            # displacement = whole number of cells + a tiny remainder: the foot is beside a node, not on it
+            iota = draw(st.sampled_from([0.0, 0.8]))
+            cells = draw(st.integers(-30, 30))
+            epsc = draw(st.sampled_from([1e-3, 1e-5, 1e-7, 1e-9, -1e-4, -1e-6, -1e-8]))
+            bz = [1.0 / (1.0 + (r_ * iota / R0) ** 2) ** 0.5 for r_ in rs]
+            vs = sorted({-(cells + epsc) * dz / (b * dt) for b in bz[:nv]})
     modes = draw(st.lists(st.tuples(st.integers(0, 3), st.integers(-2, 2), st.floats(-2, 2), st.floats(0, 6.3)),
                           min_size=0, max_size=3))
     return {"deg": deg, "cu": cu, "ntheta": ntheta, "nz": nz, "dz": dz, "R0": R0, "r": rs, "v": list(vs), "dt": dt,
             "iota": iota, "modes": [list(m) for m in modes], "noise": draw(st.sampled_from([0.0, 0.1, 1.0])),
             "seed": draw(st.integers(0, 2 ** 16)), "const": draw(st.floats(-3, 3)),
-            "roll": draw(st.integers(1, 13)), "alpha": draw(st.floats(-2, 2)), "exact": exact}
+            "roll": draw(st.integers(1, 13)), "alpha": draw(st.floats(-2, 2)), "exact": exact, "near": near}
 
 
 def build(case):
@@ -152,6 +160,9 @@ def predicate(case):
                 nontriv = True
             if abs(zc) > case["nz"]:
                 labels.append("more-than-a-turn")
+            fracc = abs(zc - round(zc))
+            if 0 < fracc < 2e-3:
+                labels.append("foot-beside-a-node")
     return {"nontrivial": nontriv, "labels": sorted(set(labels)), "evals": nev}
 
 
